@@ -31,6 +31,9 @@ type Case struct {
 	DQ   string   `json:"dq,omitempty"`
 	Opts int      `json:"opts,omitempty"` // 0 quoted(true); 1 +ignore_ops(true) (write_canonical); 2 +numbervars(true) (writeq)
 	Term *rt.Term `json:"term"`
+	// Share: equal compound subterms are one Go value (what binding a variable to a compound and using the
+	// variable twice produces: P = point(1,2), T = line(P, P)) instead of separate equal instances.
+	Share bool `json:"share,omitempty"`
 }
 
 var optNames = []string{"[quoted(true)]", "[quoted(true), ignore_ops(true)]", "[quoted(true), numbervars(true)]"}
@@ -64,7 +67,20 @@ func termDebug(t *rt.Term) string {
 	return t.String()
 }
 
-func build(t *rt.Term, vars map[int64]engine.Variable) engine.Term {
+func build(t *rt.Term, vars map[int64]engine.Variable, memo map[string]engine.Term) engine.Term {
+	if memo != nil && t.K == rt.Comp {
+		k := termDebug(t)
+		if b, ok := memo[k]; ok {
+			return b
+		}
+		b := build1(t, vars, memo)
+		memo[k] = b
+		return b
+	}
+	return build1(t, vars, memo)
+}
+
+func build1(t *rt.Term, vars map[int64]engine.Variable, memo map[string]engine.Term) engine.Term {
 	switch t.K {
 	case rt.Var:
 		if v, ok := vars[t.I]; ok {
@@ -82,7 +98,7 @@ func build(t *rt.Term, vars map[int64]engine.Variable) engine.Term {
 	case rt.Comp:
 		args := make([]engine.Term, len(t.A))
 		for i, a := range t.A {
-			args[i] = build(a, vars)
+			args[i] = build(a, vars, memo)
 		}
 		return engine.NewAtom(t.S).Apply(args...)
 	}
@@ -147,7 +163,11 @@ func checkTerm(c Case) error {
 		{a("quoted").Apply(tr), a("ignore_ops").Apply(tr)},
 		{a("quoted").Apply(tr), a("numbervars").Apply(tr)},
 	}[c.Opts]
-	term := build(c.Term, map[int64]engine.Variable{})
+	var memo map[string]engine.Term
+	if c.Share {
+		memo = map[string]engine.Term{}
+	}
+	term := build(c.Term, map[int64]engine.Variable{}, memo)
 	var sb strings.Builder
 	ok, werr := engine.WriteTerm(&i.P.VM, engine.NewOutputTextStream(&sb), term, engine.List(opts...), engine.Success, nil).Force(context.Background())
 	if werr != nil || !ok {
@@ -226,7 +246,8 @@ func u(t *rapid.T, n int, l string) int { return int(rapid.Uint64().Draw(t, l) %
 
 type gg struct {
 	t       *rapid.T
-	opNames []string // names touched by the generated op/3 history (so atoms in the term are current operators)
+	opNames []string   // names touched by the generated op/3 history (so atoms in the term are current operators)
+	comps   []*rt.Term // compound subterms generated so far (to be repeated)
 }
 
 func (x *gg) atomText() string {
@@ -288,6 +309,17 @@ func (x *gg) number() *rt.Term {
 }
 
 func (x *gg) term(d int) *rt.Term {
+	if len(x.comps) > 0 && u(x.t, 8, "repeat") == 0 {
+		return x.comps[u(x.t, len(x.comps), "which")]
+	}
+	t := x.term1(d)
+	if t.K == rt.Comp {
+		x.comps = append(x.comps, t)
+	}
+	return t
+}
+
+func (x *gg) term1(d int) *rt.Term {
 	if d <= 0 {
 		switch u(x.t, 5, "leaf") {
 		case 0, 1:
@@ -347,6 +379,7 @@ func genCase() *rapid.Generator[Case] {
 			x.opNames = append(x.opNames, name)
 		}
 		c.Term = x.term(u(t, 4, "depth"))
+		c.Share = u(t, 2, "share") == 0
 		if c.Opts == 2 && hasVarFunctor(c.Term) {
 			c.Opts = 0 // '$VAR'(N) terms are excluded for numbervars(true): its output is by definition not re-readable
 		}
@@ -409,10 +442,33 @@ func nontrivial(c Case) bool {
 	return found && c.Term.Depth() >= 2
 }
 
+// repeats: some compound subterm occurs at two places.
+func repeats(t *rt.Term) bool {
+	seen := map[string]bool{}
+	dup := false
+	var walk func(t *rt.Term)
+	walk = func(t *rt.Term) {
+		if t.K != rt.Comp {
+			return
+		}
+		k := termDebug(t)
+		if seen[k] {
+			dup = true
+			return
+		}
+		seen[k] = true
+		for _, a := range t.A {
+			walk(a)
+		}
+	}
+	walk(t)
+	return dup
+}
+
 func TestProp(t *testing.T) {
 	r := h.Start(t, "C06")
 	defer r.Finish(t)
-	r.Rule("rapid-generated terms built with the engine's constructors (so any atom text can occur): atoms from every lexical class - solo, graphic, alphanumeric, needing quotes, with escapes and control characters, empty, non-ASCII letters, non-letter Unicode (currency, emoji, NBSP, U+0085, U+2028, zero-width space, titlecase, non-ASCII digits), random runes; 64-bit integers incl. min/max; finite floats from raw bit patterns, powers of ten and their neighbours, subnormals, max, -0.0; shared variables; compounds of arity 1-3 whose functors are drawn from the same pools (operators as atoms, operands and functors; prefix/infix/postfix; an atom that is prefix and infix at once); proper and partial lists; {}-terms; negative numbers as operands of operators; depth <= 4 - under an operator table produced by a generated sequence of 0-6 op/3 calls (priorities at the 699/700/701, 999/1000/1001, 1200 boundaries, every specifier, names drawn from the same atom pools so atoms of the term are current operators) x double_quotes in {codes, chars, atom} x write options {quoted(true); +ignore_ops(true) (write_canonical); +numbervars(true) (writeq, '$VAR'(N) excluded)}. Oracle (round trip): WriteTerm into memory, ' .' appended, ReadTerm under the same table and flags: the result must be identical to the original up to variable renaming, floats bit-for-bit. Second oracle: number_codes/2 and number_chars/2 there and back on generated numbers (passed as placeholders, read structurally). Non-trivial: the term contains a current operator, an atom needing quotes or a float, and has depth >= 2 (numbers: a float or an integer beyond 32 bits). Distinct by case.",
+	r.Rule("rapid-generated terms built with the engine's constructors (so any atom text can occur): atoms from every lexical class - solo, graphic, alphanumeric, needing quotes, with escapes and control characters, empty, non-ASCII letters, non-letter Unicode (currency, emoji, NBSP, U+0085, U+2028, zero-width space, titlecase, non-ASCII digits), random runes; 64-bit integers incl. min/max; finite floats from raw bit patterns, powers of ten and their neighbours, subnormals, max, -0.0; shared variables; repeated compound subterms, as separate equal values or (half of the cases) as one Go value at several places, which is what a variable bound to a compound and used twice gives; compounds of arity 1-3 whose functors are drawn from the same pools (operators as atoms, operands and functors; prefix/infix/postfix; an atom that is prefix and infix at once); proper and partial lists; {}-terms; negative numbers as operands of operators; depth <= 4 - under an operator table produced by a generated sequence of 0-6 op/3 calls (priorities at the 699/700/701, 999/1000/1001, 1200 boundaries, every specifier, names drawn from the same atom pools so atoms of the term are current operators) x double_quotes in {codes, chars, atom} x write options {quoted(true); +ignore_ops(true) (write_canonical); +numbervars(true) (writeq, '$VAR'(N) excluded)}. Oracle (round trip): WriteTerm into memory, ' .' appended, ReadTerm under the same table and flags: the result must be identical to the original up to variable renaming, floats bit-for-bit. Second oracle: number_codes/2 and number_chars/2 there and back on generated numbers (passed as placeholders, read structurally). Non-trivial: the term contains a current operator, an atom needing quotes or a float, and has depth >= 2 (numbers: a float or an integer beyond 32 bits). Distinct by case.",
 		"structural comparison through the Compound interface; the operator table is set up through engine.Op so the lexer is not on the set-up path")
 	r.Regress(t)
 	if r.Failed() {
@@ -429,6 +485,9 @@ func TestProp(t *testing.T) {
 			return
 		}
 		r.Eval(1)
+		if c.Kind == "term" && c.Share && repeats(c.Term) {
+			r.Label("one_compound_value_at_two_places")
+		}
 		if nontrivial(c) {
 			r.NonTrivial(h.Hash(c), c.Kind, func() any { return c.String() })
 		}
